@@ -102,19 +102,79 @@ fn early(exit: Exit) -> RunResult {
     RunResult { stdout: Vec::new(), stderr: String::new(), exit, events: Vec::new(), steps: 0, sched_choices: Vec::new() }
 }
 
+/// A checked and compiled program, ready to be executed several times.
+pub struct Prepared {
+    info: crate::vet::Info,
+    prog: code::Program,
+}
+
+/// Type-checks and compiles; Err carries the Unsupported outcome.
+pub fn prepare(file: &File) -> Result<Prepared, Exit> {
+    let (report, info) = crate::vet::check(file);
+    if let Some(e) = report.errors.first() {
+        return Err(Exit::Unsupported(format!("program does not type-check: line {}: [{}] {}", e.line, e.kind, e.msg)));
+    }
+    if let Some(u) = report.unsupported.first() {
+        return Err(Exit::Unsupported(format!("checker: {}", u)));
+    }
+    match compile::compile(file, &info) {
+        Ok(prog) => Ok(Prepared { info, prog }),
+        Err(e) => Err(Exit::Unsupported(e)),
+    }
+}
+
+impl Prepared {
+    pub fn run(&self, cfg: &RunConfig) -> RunResult {
+        vm::execute(&self.prog, &self.info, cfg)
+    }
+}
+
 /// Runs the program on the calling thread (see `crate::run` for the variant
 /// that uses a dedicated big-stack thread).
 pub fn run_inline(file: &File, cfg: &RunConfig) -> RunResult {
-    let (report, info) = crate::vet::check(file);
-    if let Some(e) = report.errors.first() {
-        return early(Exit::Unsupported(format!("program does not type-check: line {}: [{}] {}", e.line, e.kind, e.msg)));
+    match prepare(file) {
+        Ok(p) => p.run(cfg),
+        Err(e) => early(e),
     }
-    if let Some(u) = report.unsupported.first() {
-        return early(Exit::Unsupported(format!("checker: {}", u)));
-    }
-    let prog = match compile::compile(file, &info) {
+}
+
+/// Enumerates schedules by replaying script prefixes. Alternatives are
+/// explored in order of increasing number of deviations from the default
+/// (Deterministic) choices, then by position of the last deviation, so that
+/// schedules with few preemptions come first. Only the first `max_depth`
+/// choice points of a run are branched on.
+pub fn enumerate_inline(file: &File, base: &RunConfig, max_runs: usize, max_depth: usize) -> Vec<RunResult> {
+    let prepared = match prepare(file) {
         Ok(p) => p,
-        Err(e) => return early(Exit::Unsupported(e)),
+        Err(e) => return vec![early(e)],
     };
-    vm::execute(&prog, &info, cfg)
+    let mut results = Vec::new();
+    // (deviations, prefix)
+    let mut work: std::collections::BTreeSet<(usize, usize, Vec<u32>)> = std::collections::BTreeSet::new();
+    work.insert((0, 0, Vec::new()));
+    while let Some(item) = work.iter().next().cloned() {
+        work.remove(&item);
+        if results.len() >= max_runs {
+            break;
+        }
+        let (devs, _, prefix) = item;
+        let cfg = RunConfig { step_budget: base.step_budget, sched: Sched::Script(prefix.clone()), max_output: base.max_output, trace_calls: base.trace_calls };
+        let r = prepared.run(&cfg);
+        let upto = r.sched_choices.len().min(max_depth);
+        for i in prefix.len()..upto {
+            let (n, chosen) = r.sched_choices[i];
+            for alt in 0..n {
+                if alt == chosen {
+                    continue;
+                }
+                let mut p: Vec<u32> = r.sched_choices[..i].iter().map(|c| c.1).collect();
+                p.push(alt);
+                if work.len() < 200_000 {
+                    work.insert((devs + 1, p.len(), p));
+                }
+            }
+        }
+        results.push(r);
+    }
+    results
 }
